@@ -310,6 +310,12 @@ M.contract(P_RR + ':_ResultReporterForNormalOutput.depends_on_result_in_sandbox'
            ensures={'sandbox-removed': lambda ret: ret is False}, raises_only=())
 
 
+# (C04: "the sandbox is removed unless --keep": --act does not keep it either)
+M.contract(P_RR + ':_ResultReporterForActPhaseOutput.depends_on_result_in_sandbox', params=dict(self=ACT),
+           inline=True,
+           ensures={'sandbox-removed': lambda ret: ret is False}, raises_only=())
+
+
 @M.check('constants')
 def _constants(ctx):
     """Finite obligations on the real module constants (read from the imported current tree)."""
